@@ -45,6 +45,9 @@ def build_real(op):
         return ExplainableQuantity(op["m"] * u(op["u"]), "operand")
     t0 = datetime(2025, 3, 1) + timedelta(hours=op["start"])
     idx = pd.date_range(start=t0, periods=len(op["vs"]), freq="h", tz="UTC" if op["aware"] else None)
+    if op.get("gap"):
+        # an hour missing in the middle (what convert_to_utc produces at a fall-back transition)
+        idx = pd.DatetimeIndex([t + timedelta(hours=1 if i >= op["gap"] else 0) for i, t in enumerate(idx)])
     df = pd.DataFrame({"value": pint_pandas.PintArray(np.array(op["vs"], dtype=float), dtype=u(op["u"]).units)}, index=idx)
     return ExplainableHourlyQuantities(df, "operand")
 
@@ -56,6 +59,9 @@ def lean_operand(op):
     if op["k"] == "q":
         return {"q": rat_str(op["m"]), "u": uj}
     k0 = leanio.naive_epoch(2025, 3, 1) + 3600 * op["start"]
+    if op.get("gap"):
+        return {"ks": [k0 + 3600 * (i + (1 if i >= op["gap"] else 0)) for i in range(len(op["vs"]))],
+                "vs": [rat_str(v) for v in op["vs"]], "u": uj}
     return {"k0": k0, "vs": [rat_str(v) for v in op["vs"]], "u": uj}
 
 
@@ -118,6 +124,11 @@ def gen_case(rng):
         a = gen_operand(rng, fam=fam, aware=aware)
         b = gen_operand(rng, fam=fam if same_fam else None, base=a.get("start", 0) if rng.random() < 0.7 else None,
                         aware=aware if rng.random() < 0.9 else not aware)
+        if opn in ("add", "sub") and a["k"] == "h" and b["k"] == "h" and len(a["vs"]) >= 2 and rng.random() < 0.2:
+            # same start and same number of hours, but one of the two skips an hour
+            b["start"] = a["start"]
+            b["vs"] = [rng.choice([0.0, round(rng.uniform(-20, 300), 3)]) for _ in a["vs"]]
+            rng.choice([a, b])["gap"] = rng.randint(1, len(a["vs"]) - 1)
         if opn in ("npmax", "npmin"):
             a = gen_operand(rng, kind=rng.choice(["h", "h", "e"]), fam=fam, aware=aware)
             b = gen_operand(rng, kind=rng.choice(["h", "h", "e"]), fam=fam, aware=aware)
